@@ -347,7 +347,7 @@ func checkC20(t core.TB, rec *core.Recorder, all *core.Set, p *core.Program, pc 
 func hasNamesake(p *core.Program) bool {
 	for _, f := range p.Files {
 		for _, is := range f.Imports {
-			if strings.Contains(is.Path.Value, "verif.fake/") {
+			if strings.Contains(is.Path.Value, "veriffake/") {
 				return true
 			}
 		}
